@@ -16,23 +16,23 @@ CLAIMED = {
  "C03": ("4/C03", "ra[index] = value over the C02 selector grid (non-repeating row selectors) with scalar, flat, (K,1) column, matching ragged and "
          "mismatching ragged values, plus boolean ragged-mask assignment: addressed cells take the value, every other cell and all row lengths unchanged, "
          "mismatching ragged values refused",
-         "bounds: rows<=3 (4), row length<=3, bounds +-3 (5), column steps {None,-1,2} (+{1,-2,3}); column values on 64-bit vectors with rows<=2 (3), length<=2 (3); permutations of four rows; ragged values that are themselves pending selections"),
+         "bounds: rows<=3 (4), row length<=3, bounds +-3 (5), column steps {None,-1,2} (+{1,-2,3}); column values on 64-bit vectors with rows<=2 (3), length<=2 (3); permutations of four rows; ragged values that are themselves pending selections; ra[..., cols] = value"),
  "C04": ("4/C04", "unary ufuncs and binary ufuncs of a ragged array with a same-shaped ragged array, a Python int/bool or numpy scalar, or an (n_rows,1) column "
          "vector on either side: result has the operand's row lengths, equals the ufunc applied by numpy to each row, has numpy's result dtype (NEP 50 "
          "weak Python scalars included), operands unchanged; different row lengths refused.  Cells are bit-vectors of the true width so wrap-around "
          "and the XOR-scatter/prefix-XOR column broadcast on reinterpreted bits are exact, for every itemsize 1/2/4/8 and mixed dtype pairs",
          "bounds: rows<=3 (4), row length<=2 (3); ufuncs subtract/less/bitwise_and/maximum/add/bitwise_xor (+equal/minimum/floor_divide/logical_or), "
-         "unary negative/invert/logical_not/absolute; column broadcast also onto lazily selected operands (int64; float16 cells under an uninterpreted binary ufunc, so that a broadcast that is only exact for integers is seen; selections incl. reversed/strided columns and three-row lists, rows computed on plain lists); operands that are astype results (also in the different-row-lengths refusal); numpy bool scalars (not numbers.Number) and interpreted float arithmetic are outside the claim"),
+         "unary negative/invert/logical_not/absolute; column broadcast also onto lazily selected operands (int64; float16 cells under an uninterpreted binary ufunc, so that a broadcast that is only exact for integers is seen; selections incl. reversed/strided columns and three-row lists, rows computed on plain lists); operands that are astype results (also in the different-row-lengths refusal); a float16 column on freshly built operands; comparisons with python integers outside the element type (decided on the mathematical values); numpy bool scalars (not numbers.Number) and interpreted float arithmetic are outside the claim"),
  "C07": ("4/C07", "cumsum (method and np.cumsum), add/subtract/bitwise_xor.accumulate, sort, unique with and without counts, diff of order 1..3 on "
          "symbolic row lengths (empty rows anywhere) and symbolic cells: per-row restart of scans, per-row sorted permutation, per-row distinct values and "
          "multiplicities, per-row n-th differences; operand unchanged",
          "bounds: rows<=3 (4), row length<=3 (4); int64 cells (Int-represented, |v|<=1000, through the bit-pattern bijection for the offset broadcast; 64-bit "
-         "vectors for xor); float16 sort/unique/unique-with-counts with IEEE-exact comparisons and arithmetic (rows<=2, length<=3, NaN excluded); cumsum of uint8/int8/int32 bit-vectors (numbers only) and of uint64 (the result must stay uint64; thorough: full-range wrapping); every operation also on lazily selected operands (rows reversed / three-row list / mask / row slice / columns reversed / +-2 strides / column slice) against rows computed on plain lists (np.cumsum and the cumsum method); cumsum(dtype=int8/uint8) wrapping in that type; bool inputs and float diff not covered"),
+         "vectors for xor); float16 sort/unique/unique-with-counts with IEEE-exact comparisons and arithmetic (rows<=2, length<=3, NaN excluded); cumsum of uint8/int8/int32 bit-vectors (numbers only) and of uint64 (the result must stay uint64; thorough: full-range wrapping); every operation also on lazily selected operands (rows reversed / three-row list / mask / row slice / columns reversed / +-2 strides / column slice) against rows computed on plain lists (np.cumsum and the cumsum method); cumsum(dtype=int8/uint8) wrapping in that type; diff of order 0; bool add.accumulate; bool inputs and float diff not covered"),
  "C08": ("4/C08", "np.concatenate along rows (1-3 operands, each with its own symbolic row lengths) and along columns, zeros_like/ones_like/empty_like "
          "(+dtype), as_padded_matrix (left/right/default, symbolic fill), nonzero (method and np.nonzero; int and bool cells), where(mask, x, y) with ragged/ragged "
          "and ragged/scalar operands, subset(mask) and ra[mask], ragged_slice on ragged, 1-D and 2-D sources with symbolic starts/ends (negative ends, ends beyond the row)",
          "bounds: rows<=3 (4), row length<=3, 2-3 operands with rows<=2; preconditions: padded matrix needs one non-empty row, 1-D ragged_slice takes both vectors, "
-         "a scalar x in where() is outside the claim; ragged_slice also on lazily row-selected operands; concatenate / zeros_like / padded matrix / nonzero / where (as condition source and as x) / ragged_slice / subset on lazily selected operands (8 kinds of selection, shapes forked, rows computed on plain lists; nonzero as function and method); the indexing form x[starts:ends] on 1-D and 2-D NPSArray views; the start/end vectors handed to ragged_slice are unchanged afterwards; column concatenation of operands with different element types"),
+         "a scalar x in where() is outside the claim; ragged_slice also on lazily row-selected operands; concatenate / zeros_like / padded matrix / nonzero / where (as condition source and as x) / ragged_slice / subset on lazily selected operands (8 kinds of selection, shapes forked, rows computed on plain lists; nonzero as function and method); the indexing form x[starts:ends] on 1-D and 2-D NPSArray views; the start/end vectors handed to ragged_slice are unchanged afterwards; column concatenation of operands with different element types; 2-D sources stored column-major (transposed views)"),
  "C09": ("4/C09", "ra.sum(axis=0) and np.sum(ra, axis=0) for int64, bool and unsigned cells, col_counts(), get_column_values(j) with symbolic j, over symbolic "
          "row lengths with at least one non-empty row: column j sums/counts exactly the rows longer than j; result length = longest row",
          "bounds: rows<=4 (5), row length<=3 (4); |cell|<2^40 (float64-exact weighted bincount); element type of the result not compared; mean(axis=0) for int64/bool/uint8 as the abstract quotient of exact column sum and count; sum/mean(axis=0), col_counts, get_column_values also as the first use of a lazily selected operand (8 kinds of selection incl. three-row lists), column j=1, aggregates of a sub-selection, the same question asked twice (and after other aggregates), and after the source's size / row sums were read before selecting"),
@@ -44,29 +44,29 @@ CLAIMED = {
          "KF-C11-1 (scalar-valued table did not check membership) was repaired in /repo"),
  "C12": ("4/C12", "Counter: initial value default 0 / scalar / per-key array, then one or two count(batch) calls with symbolic samples (keys, colliding non-keys, "
          "non-keys in empty buckets, repeats, empty batches, python lists), then every key read back: total = initial + occurrences; every modulus 1..2(3) and the default",
-         "bounds: symbolic keys<=2 (3), batch<=2 (3), batches<=2; plus concrete key sets of 3-4 keys (with and without bucket collisions, moduli 1..7 and default) with symbolic batches of <=3 (4) samples in +-16, incl. a 3/2/1-key bucket layout and uint8/int8 keys with bucket numbers above half the type's range; the initial-value and key arrays handed to the constructor unchanged afterwards"),
+         "bounds: symbolic keys<=2 (3), batch<=2 (3), batches<=2; plus concrete key sets of 3-4 keys (with and without bucket collisions, moduli 1..7 and default) with symbolic batches of <=3 (4) samples in +-16, incl. a 3/2/1-key bucket layout and uint8/int8 keys with bucket numbers above half the type's range; the initial-value and key arrays handed to the constructor unchanged afterwards; counters derived by zeros_like (explicit moduli); a uint64 key above 2^63 with samples around zero"),
  "C13": ("4/C13", "BitArray.pack/unpack, packed[i] with symbolic i, packed[index list].unpack(), sliding_window(w) for every w with w*b<=64, for b in {32,16,8,4,2,1}, "
          "lengths around the 64-bit register boundaries (1,2,3,k-1,k,k+1,2k-1,2k,2k+1), input dtypes uint8/uint16/int32/int64/uint64; call sequences on one object (two windows of different sizes; "
          "window, index, then unpack); the packed input must be unchanged; cells are bit-vectors constrained < 2^b",
-         "bounds: n <= 2k+1 registers' worth (quick: edges only; thorough: every n up to 2k+2 for b>=4); zero-length arrays and empty position lists; a BitMask created first (nothing of its 8-bit layout may reach BitArray)"),
+         "bounds: n <= 2k+1 registers' worth (quick: edges only; thorough: every n up to 2k+2 for b>=4); zero-length arrays and empty position lists; a BitMask created first (nothing of its 8-bit layout may reach BitArray); position arrays of a narrow integer type; the unpacked array overwritten before the next unpack"),
  "C14": ("4/C14", "RunLengthArray.from_array(a) for bool, int8/uint8/int32/int64/uint64 bit-vectors and float16/32/64 bit patterns (NaN, +-0 through FP predicates): "
          "to_array / np.asarray round trip under the dtype's equality, dtype, len/size/shape/ndim, starts/ends/values; canonical form (events 0=e0<...<ek=n, adjacent values differ, "
          "each run holds its cells' value); canonical form of stepped slices (steps +-2, 3) and of mask selections (dense, run-length, run-length from a comparison; the empty selection included) checked here (C14.stepslice) and of binary-ufunc results in C16, on the solver side and again on the real events/values at replay",
-         "bounds: n<=4 (6); the decoded array overwritten by the caller does not reach the encoded array; float16 stepped slices (equal infinities, signed zeros; cells compared by value); binary ufuncs on two operands derived from one array (shared boundaries) and concatenation (C14.ufunc2, bodies of C16)"),
+         "bounds: n<=4 (6); the decoded array (to_array and numpy's array conversion) overwritten by the caller does not reach the encoded array; float16 stepped slices (equal infinities, signed zeros; cells compared by value); binary ufuncs on two operands derived from one array (shared boundaries) and concatenation (C14.ufunc2, bodies of C16)"),
  "C15": ("4/C15", "rla[i] (negative, out of range refused), rla[list/array], rla[dense bool mask], rla[run-length bool mask] (encoded from a dense mask, and produced by a comparison ufunc so that adjacent runs may share a truth value), rla[a:b:s] with symbolic/absent bounds in +-(n+2) "
          "and steps +-1,+-2,+-3, rla[starts:stops] windows; decoded result equals the same index on the dense array; RunLengthArray results canonical",
-         "bounds: n<=4 (5); 64-bit cells; masks with no True element included; masks given as python lists of bools; a slice expression evaluated twice leaves the indexed array as it was"),
+         "bounds: n<=4 (5); 64-bit cells; masks with no True element included; masks given as python lists of bools; a slice expression evaluated twice leaves the indexed array as it was; float16 and uint64 cells for integer / list / mask indices (float cells compared by value)"),
  "C16": ("4/C16", "unary ufuncs, binary ufuncs of two equally long run-length arrays (all alignments of the two boundary sets), scalar on either side (ufunc and operator forms), "
          "sum/np.sum (int64, uint8, int8, uint16)/any/all/max/mean, concatenate of 2-3: decoded result equals the ufunc on the dense arrays, binary results canonical, operands unchanged; "
          "np.histogram (1-3 uniform bins, range None / inside / partly outside / degenerate, density on and off) equals numpy's histogram of the decoded array (symbolic bin membership, IEEE-exact densities)",
-         "bounds: n<=3 (4); int64/bool/uint8+int8 cells as bit-vectors; mean as abstract quotient; histogram on cells in -1..5 with explicit bin edges and weights= not covered; cell-by-cell multiplication of two 64-bit arrays outside reach (symbolic x symbolic); concatenation of operands with different element types; bool sums/means/max; binary ufuncs of two operands derived from one array; any/all/sum/max of arrays that are results of scalar ufuncs or concatenations (neighbouring runs may be equal); a dense operand of another length is refused"),
+         "bounds: n<=3 (4); int64/bool/uint8+int8 cells as bit-vectors; mean as abstract quotient; histogram on cells in -1..5 with explicit bin edges and weights= not covered; cell-by-cell multiplication of two 64-bit arrays outside reach (symbolic x symbolic); concatenation of operands with different element types; bool sums/means/max; binary ufuncs of two operands derived from one array; any/all/sum/max of arrays that are results of scalar ufuncs or concatenations (neighbouring runs may be equal); a dense operand of another length is refused; python scalars with int8/uint8 cells (the element type is kept and wraps); mean of magnitudes beyond +-1000 is outside the bounds (the library's and numpy's summation orders round differently there)"),
  "C17": ("4/C17", "RunLength2dArray.from_array / RunLengthRaggedArray.from_ragged_array / from_array / from_intervals: decode round trip, len/shape/size, row selectors "
          "(int, slice with steps None/-1/2, list, mask), element, column int, column slices under the property's precondition (non-empty in every selected row; negative steps with bounds "
          "inside the rows), row x column slices, row sum/any/all/max/argmax/mean (+np.sum, np.max, np.mean), column sum / any / counts, ravel, concatenate, unary ufunc, ufunc with scalar and (n_rows,1) "
          "column on either side; interval tables (any run value, runs reaching the right edge) under the row/column reductions, selectors and scalar ufuncs; reductions and column aggregates as the first use of a pending row selection (from 1, reversed, stride 2, list, mask) on all three variants; a ragged source that is itself a pending selection.  Structure, selector parameters and the run layout are forked (run boundaries concrete per path); cell values, scalars, columns symbolic",
          "bounds: rows<=2 (3), row length<=3 (4), cell values 0..3; column-slice steps None,1,2,-1,-2 (3,-3); quick column slices: one row up to length 3, two rows up to length 2; mean as abstract quotient; zero-row selections only checked for emptiness"),
  "C18": ("4/C18", "npdataclass with 1-3 fields (1-D and 2-D): len, indexing by int / slice (symbolic bounds, steps None,-1,2) / list / array / mask, iteration, concatenate of 2-3, ==, "
-         "astype to a narrower class (one field; two fields declared in another order), refusal of unequal field lengths; two different tables sharing module and qualified name used alternately; equality of tables whose field differs in width must not be reported equal; concatenation of tables whose column types differ (promoted, entries unchanged); VarLenArray concatenation (right-aligned, zero-padded)",
+         "astype to a narrower class (one field; two fields declared in another order), refusal of unequal field lengths; two different tables sharing module and qualified name used alternately; equality of tables whose field differs in width must not be reported equal; concatenation of tables whose column types differ (promoted, entries unchanged); masks given as python lists; tables built with keyword arguments from plain lists; two iterations over one table at a time; VarLenArray concatenation (right-aligned, zero-padded)",
          "bounds: n<=3 (4)"),
  "C06": ("4/C06", "relational over programs: for every skeleton d = step_k(...step_1(a)) (steps: row slice / reverse / stride / list / mask, column slice / reverse / "
          "+-2 strides, ufunc, concatenate, sort, cumsum, diff, where, a[...]) with symbolic parameters and input, and every probe (canonical read, integer row, element, row slice, "
@@ -77,22 +77,22 @@ CLAIMED = {
  "C10": ("4/C10", "relational over histories: construct a; b = a[selection]; optionally c = b[selection]; a write to a, b or c; final read of every array -- with and "
          "without a read-only operation (repr, str, iteration, ravel, view-index, integer row, element, ufunc, row sums, np.sum, tolist, shape, nonzero) inserted at each position, on "
          "the same symbolic input in one path; final observations -- the canonical read of every array and, in a second family of skeletons, the result of a further operation on the selection "
-         "(row/column sums, any, max, ragged_slice, padded matrix, unique, integer row, integer column, (row, column) mixed index, column values, column slice, nonzero) -- must be equal; a third family has no write at all: c = b[selection] taken from a still pending b must not depend on whether b or a was read first (8x8 pairs of selections); reads include selections that are taken and dropped (a[:, ::2], a[1:, ::2]) and .size; a fourth family reads the source *before* selecting and then runs a size-dependent operation on the selection.  Single-operation form: a read leaves its operand's observation unchanged.  Open known finding "
+         "(row/column sums, any, max, ragged_slice, padded matrix, unique, integer row, integer column, (row, column) mixed index, column values, column slice, nonzero) -- must be equal; a third family has no write at all: c = b[selection] taken from a still pending b must not depend on whether b or a was read first (8x8 pairs of selections); reads include selections that are taken and dropped (a[:, ::2], a[1:, ::2]) and .size; a fourth family reads the source *before* selecting and then runs a size-dependent operation on the selection; further finals: a float16 column ufunc (after an earlier reduction), and ra[rows_array, cols_array] with index arrays that an earlier read used as well.  Single-operation form: a read leaves its operand's observation unchanged.  Open known finding "
          "KF-C10-1 (selection aliases its source until first materialising read) excluded by its skeleton predicate only while its witness still fails",
          "bounds: rows<=2, length<=2 (3), parameters +-2; quick: single-op all reads x 4 operands, 3-step core + 60 seed-rotated of 2730 skeletons, 24 of 192 depth-2; thorough: all"),
  "C19": ("4/C19", "relational over configurations: bodies of the C01-C05, C07-C09 harnesses (71 instances: row/column selector grid incl. stepped and reversed row slices, "
          "assignment, reductions, scans, structural functions, geometry probes, column aggregates, ufunc column broadcast) executed under ViewBase.set_dtype(int64) and set_dtype(int32) "
          "on the same symbolic input in one path; cells, row lengths, raised-or-not must be equal; the 32-bit (start,length) gather through a uint64 view is modelled bit-exactly",
-         "bounds: those of the underlying quick harnesses with rows<=2-3; index arrays' own dtype (int32 vs int64) is not compared; also selections of selections (C06 bodies) and operations whose operand is a pending selection (C05/C08/C09 on-view bodies)"),
+         "bounds: those of the underlying quick harnesses with rows<=2-3; index arrays' own dtype (int32 vs int64) is not compared; also selections of selections (C06 bodies) and operations whose operand is a pending selection (C05/C08/C09 on-view bodies); slice bounds around +-2^40 and element positions around +-2^32 (KF-C19-2 repaired); element types of reduction results compared strictly"),
  "C05": ("4/C05", "sum/prod/any/all/max/min/argmax/argmin (int64, uint8, int8), mean and bitwise_or/xor/and.reduce per row through the method, np.<func> and ufunc.reduce entry points, "
          "keepdims and axis=None, over symbolic row lengths with empty rows anywhere (all-empty and zero rows included), on freshly built arrays and on lazy selections "
          "(rows reversed / row list / mask / columns reversed); multiplication as an uninterpreted left fold; mean as the (uninterpreted) float quotient of the exact integer "
          "row sum and the row length, plus IEEE-exact jobs over full-range 64-bit integers",
-         "bounds: rows<=4 (5), row length<=3 (4); max/min/argmax/argmin also with empty rows present (only the non-empty rows are compared; for argmax/argmin either one entry per row or one per non-empty row in row order is accepted); axis=None also on lazy selections; any/all of int64/int8 cells; float16 max/min (empty rows anywhere) and float16 argmax/argmin on lazy selections with IEEE-exact comparisons; result element type not compared (C04 subject) except that a float extremum keeps its float type"),
+         "bounds: rows<=4 (5), row length<=3 (4); max/min/argmax/argmin also with empty rows present (only the non-empty rows are compared; for argmax/argmin either one entry per row or one per non-empty row in row order is accepted); axis=None also on lazy selections; any/all of int64/int8 cells; float16 max/min (empty rows anywhere) and float16 argmax/argmin on lazy selections with IEEE-exact comparisons; result element type not compared (C04 subject) except that a float extremum keeps its float type; rows holding NaN (maximum / minimum propagate it)"),
  "C02": ("4/C02", "every index expression of the grammar (row: int, slice with any step, list/array with repeats and negatives, bool mask, "
          "Ellipsis; column: absent, int, slice with any start/stop/step) over symbolic row lengths (empty rows anywhere), symbolic cells and "
          "symbolic index parameters: result equals Python list-of-rows indexing, refusals exactly where the list model refuses",
-         "bounds: rows<=3 (4 thorough), row length<=3, slice bounds/indices in +-4 (5), |step|<=2 (3); int64 cells; four-row lists over four rows; C02.onview: integer / element / mixed int-slice / column-slice / row-slice / row-list / reversed-column / ... indexing applied to 8 kinds of lazily selected arrays against rows computed on plain lists (rows<=3, length<=2)"),
+         "bounds: rows<=3 (4 thorough), row length<=3, slice bounds/indices in +-4 (5), |step|<=2 (3); int64 cells; four-row lists over four rows; C02.onview: integer / element / mixed int-slice / column-slice / row-slice / row-list / reversed-column / ... indexing applied to 8 kinds of lazily selected arrays against rows computed on plain lists (rows<=3, length<=2); integer indices given as numpy integer scalars; slice bounds around +-2^40; C02.pairs: ra[rows_array, cols_array] element-wise (refusals, both index arrays unchanged afterwards, entries around +-2^32)"),
 }
 NOT_YET = {k: "check not built yet in this round (planned: DESIGN.md section 4)" for k in TITLES if k not in CLAIMED}
 
